@@ -469,6 +469,16 @@ def summarise(ctx, b, flavour, inline=()):
                 inner = v[3][0] if v[3] else None
                 nm = inner[2] if tag(inner) == "variant" else ("vsum" if tag(inner) == "vsum" else "?")
                 items.add(("ret", "Err", nm, guards))
+            elif (tag(v) == "variant-is" and tag(v[1]) == "vsum" and len(v[1]) > 3 and v[1][3][0] == "from" and len(v[1][3][1]) == 1
+                  and str(v[1][3][1][-1]).startswith(own) and not e["chain"]):
+                # `return helper(..).is_continue()` with the helper's exits inlined: one return per exit, true or false as that exit's variant says
+                jb = int(str(v[1][3][1][-1]).split("@")[-1])
+                base = items.cur
+                for nm, origin in v[1][3][2]:
+                    d_ = block_dnf_forced(e["bb"], ((jb, origin),))
+                    items.cur = d_
+                    items.add(("ret", repr(const(int(nm == v[2]))), guards))
+                items.cur = base
             elif tag(v) in ("cmp", "not") and not e["chain"]:
                 # `return a >= b` is `if a >= b { true } else { false }`: one item per truth value, each under the comparison's outcome
                 base = items.cur
